@@ -30,7 +30,23 @@ Fixpoint jsonable (t: sty) : bool :=
   | SDict kt vt => key_scalar kt && jsonable vt
   | _ => true end.
 
+Lemma nt_items_forallb {X} (q: pv -> bool) (qc: sfield -> X -> bool) (run: sfield -> X -> res pv) kn ms fds (l: list X) r :
+  nt_all qc fds l = true ->
+  (forall f x y, In f fds -> In x l -> qc f x = true -> run f x = Ok y -> q y = true) ->
+  nt_items run kn ms fds l = Ok r -> forallb q r = true.
+Proof.
+  revert fds r. induction l as [|x l IH]; intros fds r HA Hr H.
+  - destruct fds as [|f rest]; [inversion H; reflexivity | discriminate HA].
+  - destruct fds as [|f rest]; [inversion H; reflexivity|]. cbn [nt_items] in H.
+    cbn [nt_all] in HA. apply andb_prop in HA. destruct HA as [Hq HA].
+    destruct (run f x) as [y|] eqn:Ey; [|discriminate H].
+    destruct (nt_items run kn ms rest l) as [ys|] eqn:Eys; [|discriminate H]. inversion H; subst.
+    cbn [forallb]. rewrite (Hr f x y (or_introl eq_refl) (or_introl eq_refl) Hq Ey).
+    apply (IH rest ys HA); [| exact Eys]. intros f0 x0 y0 Hf0 Hx0. apply Hr; right; assumption.
+Qed.
+
 Section Basic.
+  Variable o : bool.
   Variable E : senv.
   Variable P : prims.
   Hypothesis env_jsonable : forallb (fun c => forallb (fun f => jsonable f.(sf_ty)) c.(sc_fields)) E = true.
@@ -41,14 +57,12 @@ Section Basic.
   Lemma scalar_is_basic v : scalar_basic v = true -> basic v = true.
   Proof. destruct v; try discriminate; reflexivity. Qed.
 
-  Lemma sfind_jsonable c k : sfind E c = Some k -> forallb (fun f => jsonable f.(sf_ty)) k.(sc_fields) = true.
+  Lemma sfind_jsonable kd c k : sfind E kd c = Some k -> forallb (fun f => jsonable f.(sf_ty)) k.(sc_fields) = true.
   Proof.
-    intros H. rewrite forallb_forall in env_jsonable. apply (env_jsonable k).
-    clear - H. induction E as [|x E' IH]; cbn [sfind] in H; [discriminate|].
-    destruct (String.eqb (sc_name x) c); [inversion H; left; reflexivity | right; apply IH; exact H].
+    intros H. rewrite forallb_forall in env_jsonable. apply (env_jsonable k). apply (sfind_In E kd c k H).
   Qed.
 
-  Lemma enc_key_scalar k kt w : key_scalar kt = true -> conf E k kt = true -> ref_enc E P k kt = Ok w -> scalar_basic w = true.
+  Lemma enc_key_scalar k kt w : key_scalar kt = true -> conf_g o E k kt = true -> ref_enc E P k kt = Ok w -> scalar_basic w = true.
   Proof.
     intros Hk HC HE. rewrite conf_unfold in HC. rewrite ref_enc_unfold in HE.
     destruct kt; try discriminate Hk; destruct k; try discriminate HC; try (inversion HE; reflexivity).
@@ -57,13 +71,13 @@ Section Basic.
   Qed.
 
   Definition basic_ok (v: pv) : Prop :=
-    forall t w, conf E v t = true -> jsonable t = true -> ref_enc E P v t = Ok w -> basic w = true.
+    forall t w, conf_g o E v t = true -> jsonable t = true -> ref_enc E P v t = Ok w -> basic w = true.
 
   Theorem ref_enc_basic : forall v, basic_ok v.
   Proof.
     induction v as [ | b | z | f | s | m b | l IHl | l IHl | fr l IHl | kvs IHk | c fs IHf | e m | k w | c l IHl | tg ]
       using pv_rect'; unfold basic_ok.
-    all: intros t; induction t as [ | | | | | | m' | k' | e' | t' IHt | fr' t' IHt | t' IHt | ts | kt IHkt vt IHvt | t' IHt | c' ];
+    all: intros t; induction t as [ | | | | | | m' | k' | e' | t' IHt | fr' t' IHt | t' IHt | ts | kt IHkt vt IHvt | t' IHt | c' | c' | c' ];
       intros w0 HC HJ HE; rewrite conf_unfold in HC; try discriminate HC; try discriminate HJ;
       rewrite ref_enc_unfold in HE; try (inversion HE; reflexivity).
     (* Optional *)
@@ -94,10 +108,29 @@ Section Basic.
       destruct (ref_enc E P k kt) as [k1|] eqn:Ek; [|discriminate Hy]. cbn [bind] in Hy.
       destruct (ref_enc E P x vt) as [x1|] eqn:Ex; [|discriminate Hy]. inversion Hy; subst.
       rewrite (enc_key_scalar k kt k' Jk Ck Ek). rewrite (Qx vt x' Cx Jv Ex). reflexivity.
+    - (* TypedDict *)
+      destruct (sfind E _ c') as [k0|] eqn:Ef; [|discriminate HE].
+      pose proof (sfind_jsonable _ c' k0 Ef) as HJf.
+      apply andb_prop in HC. destruct HC as [HC _]. apply andb_prop in HC. destruct HC as [_ HCf].
+      cbv zeta in HE, HCf.
+      match type of HE with (bind ?X _ = _) => destruct X as [R|] eqn:Em end; [|discriminate HE]. inversion HE. cbn [basic].
+      apply forallb_forall. intros [key y] Hp.
+      destruct (td_go_vals _ _ _ _ _ _ Em (key, y) Hp) as [f [Hf [Hk Hv]]]. cbn [fst snd] in Hk, Hv. subst key. cbn [scalar_basic andb].
+      apply In_td_order in Hf.
+      unfold td_field in Hv. rewrite (look_map (ref_enc E P) kvs) in Hv.
+      rewrite forallb_forall in HCf. specialize (HCf f Hf). rewrite (look_map (conf_g o E) kvs) in HCf.
+      rewrite forallb_forall in HJf. specialize (HJf f Hf).
+      destruct (look kvs (sf_name f)) as [x|] eqn:El; cbn [option_map] in *.
+      2: { destruct (sf_opt f); discriminate Hv. }
+      destruct (look_In _ _ _ El) as [key [Hin _]].
+      pose proof (Forall_In _ _ IHk (key, x) Hin) as [_ Qx]. cbn [snd] in Qx.
+      assert (Hy: ref_enc E P x (sf_ty f) = Ok y).
+      { destruct (sf_opt f); cbv beta iota in Hv; injection Hv as Hv'; exact Hv'. }
+      apply (Qx (sf_ty f) y HCf HJf Hy).
     - (* dataclass *)
       apply andb_prop in HC. destruct HC as [_ HC].
-      destruct (sfind E c') as [k0|] eqn:Ef; [|discriminate HE].
-      pose proof (sfind_jsonable c' k0 Ef) as HJf.
+      destruct (sfind E _ c') as [k0|] eqn:Ef; [|discriminate HE].
+      pose proof (sfind_jsonable _ c' k0 Ef) as HJf.
       match type of HE with (bind ?X _ = _) => destruct X as [r|] eqn:Em end; [|discriminate HE]. inversion HE. cbn [basic].
       clear HE H0 Ef. revert r HC HJf Em. generalize (sc_fields k0) as fds. intros fds. revert fds.
       induction fs as [|[n x] fs IHfs]; intros fds r HC HJf Em.
@@ -119,5 +152,13 @@ Section Basic.
       apply scalar_is_basic. apply (enum_scalar _ _ _ Ev).
     - (* leaf *)
       inversion HE. apply scalar_is_basic. apply render_scalar.
+    - (* NamedTuple *)
+      apply andb_prop in HC. destruct HC as [_ HC].
+      destruct (sfind E _ c') as [k0|] eqn:Ef; [|discriminate HE].
+      pose proof (sfind_jsonable _ c' k0 Ef) as HJf.
+      match type of HE with (bind ?X _ = _) => destruct X as [r|] eqn:Em end; [|discriminate HE]. inversion HE. cbn [basic].
+      refine (nt_items_forallb basic (fun f x => conf_g o E x (sf_ty f)) _ _ _ _ _ _ HC _ Em).
+      intros f x y Hf Hx Hq Hy. rewrite forallb_forall in HJf.
+      apply (Forall_In _ _ IHl x Hx (sf_ty f) y Hq (HJf f Hf) Hy).
   Qed.
 End Basic.
